@@ -9,7 +9,9 @@ package main
 
 import (
 	"fmt"
+	"math/big"
 	"reflect"
+	"strconv"
 	"strings"
 
 	"github.com/ichiban/prolog"
@@ -194,6 +196,9 @@ func bridgeHandle(c map[string]J) map[string]J {
 	if c["kind"] == "scanint" {
 		return bridgeScanInt(c)
 	}
+	if c["kind"] == "scanfloat" {
+		return bridgeScanFloat(c)
+	}
 	dq := c["dq"].(string)
 	v := goValue(c["val"].([]J))
 	input := fmt.Sprintf("double_quotes=%s value=%#v", dq, v)
@@ -293,6 +298,72 @@ func normEmpty(v interface{}) interface{} {
 		return out
 	}
 	return v
+}
+
+// bridgeScanFloat: an integer answer scanned into a float destination (also as a slice element and a map value): the value
+// stored must be exactly the integer, or Scan must return an error.
+func bridgeScanFloat(c map[string]J) map[string]J {
+	v := bigOf(c["v"])
+	p := jt.Int(c["w"])
+	fits := c["fits"].(bool)
+	if !v.IsInt64() {
+		return map[string]J{"status": "discard", "why": "the answer itself is not a 64-bit integer"}
+	}
+	input := fmt.Sprintf("Scan of the integer %s into a float with a %d-bit significand", v.String(), p)
+	ip := prolog.New(nil, nil)
+	sols, err := ip.Query(fmt.Sprintf("X is %s, L = [X].", v.String()))
+	if err != nil {
+		return map[string]J{"status": "badcase", "detail": err.Error()}
+	}
+	defer sols.Close()
+	if !sols.Next() {
+		return map[string]J{"status": "badcase", "detail": fmt.Sprint(sols.Err())}
+	}
+	exact := func(f float64) bool {
+		bf := new(big.Float).SetFloat64(f)
+		bi, acc := bf.Int(nil)
+		return acc == big.Exact && bi.Cmp(v) == 0
+	}
+	check := func(how string, serr error, got float64) map[string]J {
+		if serr != nil {
+			return nil // an error is always allowed
+		}
+		if !fits || !exact(got) {
+			return map[string]J{"status": "mismatch", "input": input + " (" + how + ")", "what": "Scan stored a value that is not the answer (an integer the destination cannot hold must be an error)",
+				"expected": v.String() + " or an error", "observed": strconv.FormatFloat(got, 'f', -1, 64)}
+		}
+		return nil
+	}
+	if p == 53 {
+		var d struct{ X float64 }
+		if r := check("struct field float64", sols.Scan(&d), d.X); r != nil {
+			return r
+		}
+		var l struct{ L []float64 }
+		if err := sols.Scan(&l); err == nil && len(l.L) == 1 {
+			if r := check("[]float64 element", nil, l.L[0]); r != nil {
+				return r
+			}
+		}
+		m := map[string]float64{}
+		if err := sols.Scan(m); err == nil {
+			if r := check("map[string]float64 value", nil, m["X"]); r != nil {
+				return r
+			}
+		}
+	} else {
+		var d struct{ X float32 }
+		if r := check("struct field float32", sols.Scan(&d), float64(d.X)); r != nil {
+			return r
+		}
+		var l struct{ L []float32 }
+		if err := sols.Scan(&l); err == nil && len(l.L) == 1 {
+			if r := check("[]float32 element", nil, float64(l.L[0])); r != nil {
+				return r
+			}
+		}
+	}
+	return map[string]J{"status": "ok", "input": input}
 }
 
 func bridgeScanInt(c map[string]J) map[string]J {
